@@ -25,23 +25,24 @@ type kdePoint struct {
 	EN     int64 `json:"en"`
 }
 type kdeCase struct {
-	Xs     []int64    `json:"xs"`
-	Ws     []int64    `json:"ws"`
-	HN     int64      `json:"hn"`
-	HD     int64      `json:"hd"`
-	Kind   string     `json:"kind"`
-	Lo     int64      `json:"lo"`
-	Hi     int64      `json:"hi"`
-	PDen   int64      `json:"pden"`
-	CDen   int64      `json:"cden"`
-	WSum   int64      `json:"wsum"`
-	Shifts []int64    `json:"shifts"`
-	Mirror int64      `json:"mirror"`
-	CdfC   int64      `json:"cdfc"`
-	Var    [2]int64   `json:"var"`
-	Q1     [2]int64   `json:"q1"`
-	Q3     [2]int64   `json:"q3"`
-	Pts    []kdePoint `json:"pts"`
+	Xs      []int64    `json:"xs"`
+	Ws      []int64    `json:"ws"`
+	HN      int64      `json:"hn"`
+	HD      int64      `json:"hd"`
+	Kind    string     `json:"kind"`
+	Lo      int64      `json:"lo"`
+	Hi      int64      `json:"hi"`
+	EpExact bool       `json:"epexact"`
+	PDen    int64      `json:"pden"`
+	CDen    int64      `json:"cden"`
+	WSum    int64      `json:"wsum"`
+	Shifts  []int64    `json:"shifts"`
+	Mirror  int64      `json:"mirror"`
+	CdfC    int64      `json:"cdfc"`
+	Var     [2]int64   `json:"var"`
+	Q1      [2]int64   `json:"q1"`
+	Q3      [2]int64   `json:"q3"`
+	Pts     []kdePoint `json:"pts"`
 }
 
 // 8-point Gauss-Legendre on [a,b]
@@ -161,14 +162,16 @@ func kdeReplay(in io.Reader, raw bool, args []string) (*Summary, error) {
 			wp := new(big.Rat).SetFrac64(3*kc.HD*p.PN, kc.PDen)
 			wc := new(big.Rat).SetFrac64(p.CN, kc.CDen)
 			gp, gc := ep.PDF(x), ep.CDF(x)
-			if !closeRat(gp, wp, 1e-9, 1e-9) {
-				sum.viol("PDF-epanechnikov", c, "x=%v: PDF=%.12g want %.12g", x, gp, rf(wp))
-			}
-			if !closeRat(gc, wc, 1e-9, 1e-9) {
-				sum.viol("CDF-epanechnikov", c, "x=%v: CDF=%.12g want %.12g", x, gc, rf(wc))
-			}
-			if e := math.Abs(gp - rf(wp)); e > worst["ep-pdf"] {
-				worst["ep-pdf"] = e
+			if kc.EpExact {
+				if !closeRat(gp, wp, 1e-9, 1e-9) {
+					sum.viol("PDF-epanechnikov", c, "x=%v: PDF=%.12g want %.12g", x, gp, rf(wp))
+				}
+				if !closeRat(gc, wc, 1e-9, 1e-9) {
+					sum.viol("CDF-epanechnikov", c, "x=%v: CDF=%.12g want %.12g", x, gc, rf(wc))
+				}
+				if e := math.Abs(gp - rf(wp)); e > worst["ep-pdf"] {
+					worst["ep-pdf"] = e
+				}
 			}
 			if gp < 0 || gc < prevE-1e-12 || gc < -1e-12 || gc > 1+1e-12 {
 				sum.viol("KDE-laws", c, "epanechnikov x=%v: PDF=%v CDF=%v previous CDF=%v", x, gp, gc, prevE)
